@@ -54,9 +54,13 @@ func (m *regModel) usable(c int) bool {
 
 func genC11(t *rapid.T) c11Case {
 	c := c11Case{Keys: rapid.IntRange(2, 4).Draw(t, "keys"), Conns: rapid.IntRange(2, 8).Draw(t, "conns")}
+	if rapid.IntRange(0, 3).Draw(t, "more_conns") != 0 {
+		c.Conns = rapid.IntRange(4, 8).Draw(t, "conns_many")
+	}
 	m := newRegModel(c.Conns)
-	n := rapid.IntRange(6, 30).Draw(t, "steps")
+	n := rapid.IntRange(10, 30).Draw(t, "steps")
 	raced := false
+	everOwned := map[int]bool{}
 	for len(c.Macros) < n {
 		var undialed, fresh, joined []int
 		for i := range m.conns {
@@ -70,6 +74,9 @@ func genC11(t *rapid.T) c11Case {
 			}
 		}
 		choice := rapid.IntRange(0, 11).Draw(t, "choice")
+		if len(fresh) == 0 && len(undialed) > 0 && choice > 1 && choice <= 4 {
+			choice = 0 // nothing can say hello yet: dial instead
+		}
 		switch {
 		case choice <= 1 && len(undialed) > 0:
 			k := undialed[0]
@@ -78,6 +85,22 @@ func genC11(t *rapid.T) c11Case {
 		case choice <= 4 && len(fresh) > 0:
 			cn := rapid.SampledFrom(fresh).Draw(t, "conn")
 			key := rapid.IntRange(0, c.Keys-1).Draw(t, "key")
+			// bias towards the interesting keys: one that is owned (refusal) or was owned and is free again (re-join)
+			var ownedKeys, freedKeys []int
+			for k := 0; k < c.Keys; k++ {
+				if o, ok := m.owner[k]; ok && o >= 0 {
+					ownedKeys = append(ownedKeys, k)
+				} else if !ok && everOwned[k] {
+					freedKeys = append(freedKeys, k)
+				}
+			}
+			switch bias := rapid.IntRange(0, 9).Draw(t, "key_bias"); {
+			case bias < 4 && len(ownedKeys) > 0:
+				key = rapid.SampledFrom(ownedKeys).Draw(t, "owned_key")
+			case bias < 8 && len(freedKeys) > 0:
+				key = rapid.SampledFrom(freedKeys).Draw(t, "freed_key")
+			}
+			everOwned[key] = true
 			c.Macros = append(c.Macros, macro{Op: "hello", Conn: cn, Key: key})
 			if _, owned := m.owner[key]; owned {
 				m.conns[cn].refused = true
@@ -89,7 +112,9 @@ func genC11(t *rapid.T) c11Case {
 			cn := rapid.SampledFrom(joined).Draw(t, "conn")
 			c.Macros = append(c.Macros, macro{Op: "msg", Conn: cn, Phone: rapid.IntRange(0, c.Keys-1).Draw(t, "phone")})
 		case choice <= 7 && len(joined)+len(fresh) > 0:
-			cn := rapid.SampledFrom(append(append([]int{}, joined...), fresh...)).Draw(t, "conn")
+			pool := append(append([]int{}, joined...), joined...)
+			pool = append(pool, fresh...)
+			cn := rapid.SampledFrom(pool).Draw(t, "conn")
 			c.Macros = append(c.Macros, macro{Op: "close", Conn: cn})
 			m.conns[cn].closed = true
 			if k := m.conns[cn].key; k >= 0 {
